@@ -128,6 +128,13 @@ def run(pid, spec, tier, seed, wd, only, rebase, t_start):
         cfile = D.write_unit_c(wd, js['name'], js.get('includes', includes), etext, bodies, extra)
         alltext = '\n'.join(bodies) + extra
         repl = list(js.get('replace', []))
+        # a function with a contract that the (possibly changed) body calls but whose body is not linked in is
+        # replaced by its contract: a change that introduces a call to another unit stays decidable
+        bodyset = set(js.get('bodies', []))
+        for name, sg in sigs.items():
+            if sg.get('has_contract') and name not in repl and name not in bodyset and name not in enforce \
+                    and re.search(r'\b%s\s*\(' % re.escape(name), alltext):
+                repl.append(name)
         job = D.Job(workdir=wd, jobname=js['name'], cfile=cfile, entry=entry, enforce=enforce, replace=repl,
                     loop_contracts=js.get('loop_contracts', False), unwind_first=js.get('unwind_first'),
                     cbmc_flags=js.get('cbmc_flags', []), defines=defines, timeout=js.get('timeout', 600), spec=js)
